@@ -34,9 +34,9 @@ COINS = ["BTC", "LTC", "BCH", "BTG", "GRS"]
 def plan(tier, seed):
     q = tier == "quick"
     shards = []
-    for i in range(12 if q else 48):
-        shards.append({"kind": "direct", "n": 28 if q else 260, "coin": COINS[i % len(COINS)]})
-    for i in range(4 if q else 16):
+    for i in range(12 if q else 80):
+        shards.append({"kind": "direct", "n": 28 if q else 300, "coin": COINS[i % len(COINS)]})
+    for i in range(4 if q else 32):
         shards.append({"kind": "tap", "n": 500 if q else 5000})
     shards.append({"kind": "suite", "label": "suite"})
     return shards
